@@ -146,7 +146,9 @@ def r1(ctx):
     for meth, trait, args in STORE_METHODS:
         subjects.append(("MemoryStore::" + meth, f.one(ms(meth, trait)), args, None))
     dyn = {IMPLD + "::get_by_key": ms("get_by_key", IMPLD), IMPLD + "::check_if_expired": ms("check_if_expired", IMPLD)}
-    subjects.append(("Cache::get@MemoryStore", f.one(CACHE + "::get"), ["self", "key"], dyn))
+    # the get that MemoryStore actually runs: its own override if it has one, else the trait's default body
+    gbody, gmap = impl_or_default(f, MS, "get")
+    subjects.append(("Cache::get@MemoryStore", gbody, ["self", "key"], dict(dyn, **gmap)))
     for name, body, args, dyn_impl in subjects:
         rep.analysed(body)
         paths = analyse_method(f, body, args, dyn_impl)
